@@ -243,12 +243,12 @@ Definition node_of (vals : list (bool * cls)) (code : Z) : option node :=
   | Some (fresh, c) => Some (File (if fresh then -1 else code - 2) c)
   | None => None
   end.
-(** store entry = key index * 100000 + node code *)
+(** store entry = key index * 1000 + node code *)
 Definition get_entry (tbl : list str) (vals : list (bool * cls)) : dec (key * node) :=
   p <- get_z ;;
-  if (p <? 0) || (p mod 100000 =? 1) then (fun _ => None) else
-  match node_of vals (p mod 100000) with
-  | Some n => ret (nth (Z.to_nat (p / 100000)) tbl [], n)
+  if (p <? 0) || (p mod 1000 =? 1) then (fun _ => None) else
+  match node_of vals (p mod 1000) with
+  | Some n => ret (nth (Z.to_nat (p / 1000)) tbl [], n)
   | None => (fun _ => None)
   end.
 Definition get_store (tbl : list str) (vals : list (bool * cls)) : dec store :=
@@ -271,10 +271,10 @@ Definition opk_of (n : Z) : option opk :=
   | 0 => Some KLock | 1 => Some KUnlock | 2 => Some KLoad | 3 => Some KList
   | 4 => Some KStat | 5 => Some KDelete | 6 => Some KStore | _ => None
   end.
-(** event = (tid * 16 + kind * 2 + ok) * 100000 + key index *)
+(** event = (tid * 16 + kind * 2 + ok) * 1000 + key index *)
 Definition get_tev (tbl : list str) : dec tev :=
   q <- get_z ;;
-  let p := q / 100000 in let ky := nth (Z.to_nat (q mod 100000)) tbl [] in
+  let p := q / 1000 in let ky := nth (Z.to_nat (q mod 1000)) tbl [] in
   if q <? 0 then (fun _ => None) else
   match opk_of ((p / 2) mod 8) with
   | Some op => ret (TEv (Z.to_nat (p / 16)) (Ev op ky (negb (p mod 2 =? 0))))
